@@ -74,3 +74,25 @@ From TrV Require Import Proofs.RevOptCompose.
 Theorem C03_full_declarative : C03_decl_statement.
 Proof. exact C03_decl_proved. Qed.
 Print Assumptions C03_full_declarative.
+
+(* the whole forward scan (entry slot of the hour index + every step) as the source writes it now *)
+Theorem C03_forward_scan_is_code : forall d p k, fwd_scan_code d p k = fwd_scan d p k false.
+Proof. exact fwd_scan_tie. Qed.
+Print Assumptions C03_forward_scan_is_code.
+
+(* the whole reverse scan (entry slot of the hour index + every step) as the source writes it now *)
+Theorem C03_reverse_scan_is_code : forall d p k, rev_scan_code d p k = rev_scan d p k false.
+Proof. exact rev_scan_tie. Qed.
+Print Assumptions C03_reverse_scan_is_code.
+
+(* the departure-order comparator of transit_data.cpp's stable_sort as the source writes it now *)
+Theorem C03_forward_sort_is_code : forall a b, cmp_args G.gen_fwd_lt a b = fwd_lt a b.
+Proof. exact fwd_lt_tie. Qed.
+Print Assumptions C03_forward_sort_is_code.
+
+(* the ORIGINAL formal statement (answer = reference solver), now a theorem: declarative optimality + the proved
+   correctness of the reference solver *)
+From TrV Require Import Proofs.FullStatements.
+Theorem C03_full : C03_full_statement.
+Proof. exact C03_original. Qed.
+Print Assumptions C03_full.
